@@ -30,13 +30,25 @@ int xv_threw; uint64_t xv_clock, xv_rmw_old; _Bool xv_cas_ok;
 #define XV_EIC 2              /* items per extension bucket: shape parameter (header: extension_item_count = 10) */
 #define POOL (XV_NEB * XV_EIC)
 #define NSLOT 3               /* == bucket_item_count, checked in build_state */
+_Static_assert(XV_NEB * XV_EIC == 4 && NSLOT + XV_L + 1 <= 7, "object tables below are written for POOL == 4, NN <= 7");
 #define NN (NSLOT + XV_L + 1) /* heap nodes of NONTRIVIAL mode: one per possible item + the one `new node` returns */
 
 /* ------------------------------------------------------------------ types */
 typedef uint64_t hash_t;      /* std::size_t */
-typedef uint64_t kkey_t;      /* Key: opaque word, only == is used */
-typedef uint64_t vval_t;      /* Value: opaque word */
-typedef uint64_t kcell_t;     /* storage_key_type: std::atomic<Key> (TRIVIAL) or std::atomic<hash_t> (NONTRIVIAL) */
+/* Key and Value are template parameters: the code under contract only copies them, compares keys with == and hashes keys.
+   A 16-bit word has far more values than the <= 8 keys one run can tell apart, so it stands for any Key/Value type. */
+typedef uint16_t kkey_t;
+typedef uint16_t vval_t;
+uint16_t nondet_u16(void);
+#define nondet_key() nondet_u16()
+#define nondet_val() nondet_u16()
+#ifdef XV_NT
+typedef hash_t kcell_t;       /* storage_key_type: std::atomic<hash_t> */
+#define nondet_kcell() nondet_u64()
+#else
+typedef kkey_t kcell_t;       /* storage_key_type: std::atomic<Key> */
+#define nondet_kcell() nondet_u16()
+#endif
 struct node { struct { kkey_t first; vval_t second; } data; };   /* traits<..,false,*>::node : std::pair<const Key, Value> data */
 typedef vval_t t_vcell;       /* TRIVIAL storage_value_type: std::atomic<Value> */
 typedef struct node* n_vcell; /* NONTRIVIAL storage_value_type: concurrent_ptr<node> */
@@ -49,29 +61,35 @@ typedef t_vcell vcell_t; typedef struct t_accessor accessor;
 #endif
 typedef struct extension_item_s { kcell_t key; vcell_t value; struct extension_item_s* next; } extension_item;
 typedef struct bucket_s { bstate_t state; extension_item* head; kcell_t key[NSLOT]; vcell_t value[NSLOT]; } bucket_t;
-typedef struct extension_bucket_s { uint32_t lock; extension_item* head; extension_item items[XV_EIC]; } extension_bucket;
+/* the items of an extension bucket are modelled as separate objects (cbmc keeps pointers to distinct objects precise; pointers to
+   different offsets of one object degrade to symbolic offsets).  `items` only keeps sizeof(extension_bucket) right for the
+   address arithmetic of free_extension_item; nothing under contract indexes it. */
+typedef struct extension_bucket_s { uint32_t lock; extension_item* head; char items[XV_EIC * sizeof(extension_item)]; } extension_bucket;
 typedef struct block_s { uint32_t mask, bucket_count, extension_bucket_count; extension_bucket* extension_buckets; bucket_t* bkts; } block_t;
 typedef block_t* guarded_block;
 struct vhm { block_t* data_block; int resize_lock; };
 struct unlocker { _Bool enabled; bstate_t state; bucket_t* locked_bucket; };
 
 /* ------------------------------------------------------------------ the objects */
-struct vhm g_map; block_t g_blk; bucket_t g_bk[NB]; extension_bucket g_eb[XV_NEB]; struct node g_node[NN];
+struct vhm g_map; block_t g_blk; bucket_t g_bk[NB]; extension_bucket g_eb[XV_NEB];
+extension_item g_it0, g_it1, g_it2, g_it3;                       /* POOL == 4: item p belongs to extension bucket p / XV_EIC, slot p % XV_EIC */
+struct node g_n0, g_n1, g_n2, g_n3, g_n4, g_n5, g_n6;            /* NN <= 7 */
 uintptr_t g_eb_base;          /* address of g_eb[0]; allocate_block rounds it up to a multiple of sizeof(extension_bucket) */
 bucket_t* g_B;                /* the bucket under test (= bucket hash(key) & mask) */
 /* pointers are always selected among concrete addresses (cheap for cbmc), never computed from a symbolic index */
-#define POOL_ITEM_C(p) (&g_eb[(p) / XV_EIC].items[(p) % XV_EIC])        /* p: constant */
+#define POOL_ITEM_C(p) ((p) == 0 ? &g_it0 : (p) == 1 ? &g_it1 : (p) == 2 ? &g_it2 : &g_it3)        /* p: constant */
+#define NODE_C(i) ((i) == 0 ? &g_n0 : (i) == 1 ? &g_n1 : (i) == 2 ? &g_n2 : (i) == 3 ? &g_n3 : (i) == 4 ? &g_n4 : (i) == 5 ? &g_n5 : &g_n6)
 static extension_item* pool_item(unsigned p) { for (unsigned i = 0; i < POOL; ++i) if (p == i) return POOL_ITEM_C(i); return 0; }
 #define POOL_ITEM(p) pool_item(p)
 static int pool_index(const extension_item* x) {        /* POOL if not a pool item */
   for (int p = 0; p < POOL; ++p) if (x == POOL_ITEM_C(p)) return p;
   return POOL;
 }
-static struct node* node_at(unsigned i) { for (unsigned j = 0; j < NN; ++j) if (i == j) return &g_node[j]; return 0; }
-static int node_index(const struct node* n) { for (int i = 0; i < NN; ++i) if (n == &g_node[i]) return i; return NN; }
+static struct node* node_at(unsigned i) { for (unsigned j = 0; j < NN; ++j) if (i == j) return NODE_C(j); return 0; }
+static int node_index(const struct node* n) { for (int i = 0; i < NN; ++i) if (n == NODE_C(i)) return i; return NN; }
 
 /* ------------------------------------------------------------------ glue used by the lowered text */
-uint64_t __CPROVER_uninterpreted_hash(uint64_t);
+uint64_t __CPROVER_uninterpreted_hash(kkey_t);
 #define XV_HASH(k) __CPROVER_uninterpreted_hash(k)       /* hash{}(key): an arbitrary function of the key (collisions possible) */
 #define XV_BACKOFF() ((void)0)
 #define GB_acquire(g, src, o) ((g) = A_LOAD(src, o))
@@ -115,7 +133,7 @@ static void gp_reclaim(struct node** g) {
 unsigned new_count; _Bool new_may_throw;
 static struct node* xv_new_node(kkey_t k, vval_t v) {
   if (new_may_throw && nondet_bool()) { xv_threw = XV_EXC_std__bad_alloc; return 0; }
-  new_count++; g_node[NN - 1].data.first = k; g_node[NN - 1].data.second = v; node_retired[NN - 1] = 0; return &g_node[NN - 1];
+  new_count++; NODE_C(NN - 1)->data.first = k; NODE_C(NN - 1)->data.second = v; node_retired[NN - 1] = 0; return NODE_C(NN - 1);
 }
 #define XV_NEW_NODE(k, v) xv_new_node((k), (v))
 
@@ -130,6 +148,8 @@ static struct n_accessor nk_acc_make(n_vcell* v, int o) { struct n_accessor a; n
 #define TK_ACC(v, o) tk_acc_make((v), (o))
 #define NK_ACC(v, o) nk_acc_make((v), (o))
 #define NK_ACC_key(a) nk_acc_key(&(a))
+#define NK_ACC_reset(a) nk_acc_reset(&(a))
+#define GP_reset(g) ((g) = 0)                 /* guard_ptr::reset */
 #ifdef XV_NT
 #define TRP(f) nk_##f
 #else
@@ -143,12 +163,13 @@ static struct n_accessor nk_acc_make(n_vcell* v, int o) { struct n_accessor a; n
 #define TR_compare_nontrivial_key(acc, k) TRP(compare_nontrivial_key)(&(acc), (k))
 #define TR_acquire(vc, o) TRP(acquire)(&(vc), (o))
 #define TR_rehash(k) TRP(rehash)(k)
+#define TR_reset(acc) TRP(reset)(&(acc))
 static accessor xv_acc_any(void) {
   accessor a;
 #ifdef XV_NT
   a.guard = node_at(nondet_uint());
 #else
-  a.v = nondet_u64();
+  a.v = nondet_val();
 #endif
   return a;
 }
@@ -157,7 +178,7 @@ static accessor xv_acc_empty(void) {
 #ifdef XV_NT
   a.guard = 0;
 #else
-  a.v = nondet_u64();      /* `value_type v;` default-initialised: indeterminate */
+  a.v = nondet_val();      /* `value_type v;` default-initialised: indeterminate */
 #endif
   return a;
 }
@@ -172,16 +193,42 @@ static _Bool vhm_do_extract_real(struct vhm* self, kkey_t key, accessor* result_
 static void vhm_grow_stub(struct vhm* self, bucket_t* bucket_p, bstate_t state);
 static void vhm_do_grow_stub(struct vhm* self);
 #define vhm_lock_bucket(self, h, blk, st) vhm_lock_bucket_real((self), (h), &(blk), &(st))
+/* allocate/free_extension_item: the writers see their contracts (stubs below, proved for the real text by runs alloc / free);
+   -DXV_REAL_POOL inlines the real text instead */
+static extension_item* alloc_stub(block_t* b, hash_t h);
+static void free_stub(extension_item* item);
+#ifdef XV_REAL_POOL
 #define vhm_allocate_extension_item(b, h) vhm_allocate_extension_item_real((b), (h))
 #define vhm_free_extension_item(i) vhm_free_extension_item_real(i)
+#else
+#define vhm_allocate_extension_item(b, h) alloc_stub((b), (h))
+#define vhm_free_extension_item(i) free_stub(i)
+#endif
 #define vhm_do_extract(self, k, acc) vhm_do_extract_real((self), (k), &(acc))
 #define vhm_grow(self, bk, st) vhm_grow_stub((self), &(bk), (st))
 #define vhm_do_grow(self) vhm_do_grow_stub(self)
 
+/* contract of free_extension_item(item): item is pushed on the free list of the extension bucket that contains it; nothing else changes.
+   contract of allocate_extension_item(b, hash): returns null iff every free list of b is empty, otherwise pops the head of one of the
+   non-empty lists (which one depends on hash: unspecified here). */
+_Bool free_stub_bad;
+static void free_stub(extension_item* item) {
+  for (int p = 0; p < POOL; ++p) if (item == POOL_ITEM_C(p)) { item->next = g_eb[p / XV_EIC].head; g_eb[p / XV_EIC].head = POOL_ITEM_C(p); return; }
+  free_stub_bad = 1;
+}
+static extension_item* alloc_stub(block_t* b, hash_t h) {
+  unsigned pick = nondet_uint();
+  for (unsigned e = 0; e < XV_NEB; ++e) if (e < b->extension_bucket_count && e == pick && g_eb[e].head) {
+    extension_item* x = g_eb[e].head; g_eb[e].head = x->next; return x; }
+  for (unsigned e = 0; e < XV_NEB; ++e) XV_ASSUME(!(e < b->extension_bucket_count && g_eb[e].head));    /* pick was not a non-empty list: then none is */
+  return 0;
+}
+
 /* Factory / Callback template arguments of do_get_or_emplace */
 vval_t in_value; _Bool factory_may_throw; unsigned factory_calls, cb_count; accessor cb_acc; vcell_t* cb_cell;
-static vval_t xv_factory(void) { factory_calls++; if (factory_may_throw && nondet_bool()) { xv_threw = XV_EXC_factory; return nondet_u64(); } return in_value; }
+static vval_t xv_factory(void) { factory_calls++; if (factory_may_throw && nondet_bool()) { xv_threw = XV_EXC_factory; return nondet_val(); } return in_value; }
 #define XV_FACTORY() xv_factory()
-#define XV_CALLBACK(a, cell) do { cb_count++; cb_acc = (a); cb_cell = &(cell); } while (0)
+static void xv_callback(accessor a, vcell_t* cell) { cb_count++; cb_acc = a; cb_cell = cell; }
+#define XV_CALLBACK(a, cell) xv_callback((a), &(cell))
 
 #endif
